@@ -222,6 +222,11 @@ F12 = ("F12 (JIT on) an error the reference raises is lost in natively compiled 
        "#<void> and execution continues - up to unbounded recursion and SIGSEGV; correct with STEEL_JIT=false")
 
 KNOWN_WITNESSES = [
+    # witnesses of repaired defects (regression watch: a divergence here is reported under its own signature)
+    ("FX-negate", "(define (f x) (- x)) (verif-emit (map f (list 1 'a)))", True),
+    ("FX-if-merge-spill", "(define (f0 a0) (+ 0 (if (list) 8 (display 3)))) (define (f1 a4) (f0 77)) (verif-emit (f1 2))", True),
+    ("FX-set!-rhs-closure", "(verif-emit (let ((v 4)) (set! v (let ((p v)) v)) v))", False),
+    ("FX-const-let-shadow", "(define (f4 acc) (let ((acc 2) (tmp acc)) tmp)) (verif-emit (f4 6))", True),
     ("F13", "(define (f4 acc) (let ((acc 2) (tmp acc)) tmp)) (verif-emit (f4 6))", False),
     ("F12", "(verif-emit ((lambda (g) (g 1)) (lambda (a) (car a))))", True),
     ("F12", "(verif-emit (foldr + 0 5))", False),
